@@ -151,27 +151,19 @@ def strAt (s : List Nat) (i : Nat) : Nat := if isASCII s then s.getD i 0 else (U
 def stringAt (s : List Nat) (index : Int) : Nat :=
   if 0 ≤ index ∧ index < strLength s then strAt s index.toNat else runeError
 
-/-- builtinStringCharAt -/
+/-- builtinStringCharAt (after fix 6afda39: the receiver is ToString'd and wrapped by newStringObject) -/
 def charAt (E : Env) (r : Recv) (args : List Val) : Res :=
   if !coercible r then .throwType else
   let idx := (number E (argAt args 0)).i
-  match r with
-  | .strObj s =>
-    let chr := stringAt s idx
-    if chr = runeError then .str [] else .str (U (encodeRune chr))
-  | .obj _ => if idx < 0 then .str [] else .panic   -- stringValue() is a nil interface: `0 <= index` short-circuits, else nil call
-  | _ => .panic        -- call.This.object() is a nil *object: nil dereference in stringValue()
+  let chr := stringAt (thisString E r) idx
+  if chr = runeError then .str [] else .str (U (encodeRune chr))
 
 /-- builtinStringCharCodeAt -/
 def charCodeAt (E : Env) (r : Recv) (args : List Val) : Res :=
   if !coercible r then .throwType else
   let idx := (number E (argAt args 0)).i
-  match r with
-  | .strObj s =>
-    let chr := stringAt s idx
-    if chr = runeError then .nan else .int chr
-  | .obj _ => if idx < 0 then .nan else .panic
-  | _ => .panic
+  let chr := stringAt (thisString E r) idx
+  if chr = runeError then .nan else .int chr
 
 /-- String object `length` (type_string.go:80) -/
 def length (_E : Env) (r : Recv) : Res :=
